@@ -34,6 +34,16 @@ VLEAVES = {
 }
 
 
+def _tz(minutes):
+    import pytz
+    return pytz.FixedOffset(minutes)
+
+
+# g-types carry (value, tzinfo) tuples: negative and half-hour offsets are the boundary
+VLEAVES["gYear"] = [((2001, None), "2001"), ((1999, _tz(-210)), "1999-03:30"), ((2020, _tz(330)), "2020+05:30"), ((2001, _tz(-45)), "2001-00:45")]
+VLEAVES["gMonthDay"] = [((5, 3, None), "--05-03"), ((12, 31, _tz(-570)), "--12-31-09:30")]
+
+
 def lex_equal(ty, a, b):
     """lexical equivalence of two texts of builtin `ty`"""
     a = "" if a is None else a
@@ -56,6 +66,7 @@ def lex_equal(ty, a, b):
 
 class VGen(xsdgen.Gen):
     """section-5 generator with the wider leaf table, simple types (list / restriction), per-declaration forms"""
+    rseq_occ = [(1, None), (1, 3), (2, 2), (0, None), (0, 2)]
 
     def __init__(self, rng, profile="values"):
         super().__init__(rng, profile)
@@ -103,10 +114,22 @@ class VGen(xsdgen.Gen):
             p["items"].append(dict(k="any", min=0, max=self.rng.choice([1, None])))
         return p
 
+    def top_particle(self, depth):
+        p = super().top_particle(depth)
+        if p["k"] == "seq" and self.rng.random() < 0.12:
+            # the type's own content model repeats: (first, ...){0..n}
+            first = self.leaf_elem(occ=(1, 1))
+            first["nillable"] = False
+            items = [first] + [i for i in p["items"] if i["k"] == "elem"][:2]
+            mn, mx = self.rng.choice([(0, None), (1, None), (0, 3)])
+            return dict(k="seq", items=items, min=mn, max=mx)
+        return p
+
     def complex_type(self, depth):
         name = super().complex_type(depth)
         t = self.types[name]
-        if "derived" not in t and t["kind"] == "complex" and t["content"] and t["content"]["k"] == "seq" and self.rng.random() < 0.35:
+        if ("derived" not in t and t["kind"] == "complex" and t["content"] and t["content"]["k"] == "seq" and t["content"].get("max", 1) == 1
+                and self.rng.random() < 0.35):
             dname = name + "D"
             self.types[dname] = dict(kind="complex", content=dict(k="seq", items=[self.leaf_elem(occ=(1, 1))], min=1, max=1),
                                      attrs=[dict(name=self.fresh("at"), type="int", required=False)], base=name)
@@ -520,6 +543,14 @@ class Caller:
 
 # ---------------------------------------------------------------------------- what was supplied (for read-back comparison)
 
+class LeafList(list):
+    """the value of an xsd:list typed leaf (a python list that is ONE datum, not a repetition)"""
+
+
+def _leafval(leaf):
+    return LeafList(leaf["py"]) if leaf.get("list") else leaf["py"]
+
+
 class AttrVal:
     """an attribute value in the description of what was supplied (K7 concerns element leaves only)"""
 
@@ -531,9 +562,9 @@ def supplied_struct(src, st):
     d = {}
     t = src["types"][st["type"]]
     for a, v in st["attrs"]:
-        d[a["zn"][st["type"]]] = AttrVal(v["py"])
+        d[a["zn"][st["type"]]] = AttrVal(_leafval(v))
     if st["text"] is not None:
-        d[t.get("valname", "_value_1")] = st["text"]["py"]
+        d[t.get("valname", "_value_1")] = _leafval(st["text"])
     if st["content"] is not None:
         d.update(supplied_fields(src, st["content"]))
     return d
@@ -550,7 +581,7 @@ def supplied_fields(src, v):
             if "nil" in it:
                 vals.append(None)
             elif "leaf" in it:
-                vals.append(it["leaf"]["py"])
+                vals.append(_leafval(it["leaf"]))
             else:
                 vals.append(supplied_struct(src, it["struct"]))
         if mult:
@@ -628,9 +659,9 @@ def readback_diff(sup, got, path="root"):
                     return out("attribute %s: missing after the round trip" % k, "attribute")
                 if isinstance(v, dict) and is_empty(v):
                     return out("%s: supplied a structure without any content, missing after the round trip" % k, "empty-structure")
-                if v is None or v == []:
+                if v is None or (v == [] and not isinstance(v, LeafList)):
                     continue
-                if v in ("", b""):
+                if v in ("", b"") or (v == [] and isinstance(v, LeafList)):
                     return out("%s: supplied %r, missing after the round trip" % (k, v), "empty-lexical")
                 return out("%s: missing after the round trip" % k)
             d = readback_diff(v, got[k], path + "." + k)
@@ -642,8 +673,10 @@ def readback_diff(sup, got, path="root"):
         return None
     if isinstance(sup, list):
         if not isinstance(got, list):
+            if not sup and got is None and isinstance(sup, LeafList):
+                return out("supplied the empty list of an xsd:list type, read back None", "empty-lexical")
             if not sup and got is None:
-                return out("supplied an empty list, read back None", "empty-lexical")
+                return out("an empty repetition read back None, not []")
             return out("supplied a list of %d, read back %r" % (len(sup), canon(got)))
         if len(sup) != len(got):
             return out("supplied %d items, read back %d" % (len(sup), len(got)))
